@@ -286,8 +286,23 @@ def c19(work, tier, seed, replay):
     pt = work.path("parsefuzz.ndjson")
     o, dt = run_driver(["parsefuzz", "-out", pt, "-n", "20000" if tier == "quick" else "300000", "-seed", str(seed)], timeout=3000)
     rep.notes.append(o.strip())
+    # (2b) coverage-guided native Go fuzzing of the real handler in front of a real witness, seeded with valid requests of every verdict class
+    fz = build_bastion_fuzz_test()
+    fcfg, fdir = work.path("fuzzcfg.json"), work.sub("fuzz")
+    run_driver(["fuzzcfg", "-out", fcfg, "-seed", str(seed)])
+    secs = 8 if tier == "quick" else 120
+    rc, fo, fdt = sh([fz, "-test.run", "^$", "-test.fuzz", "FuzzAddCheckpoint", "-test.fuzztime", "%ds" % secs, "-test.fuzzcachedir", os.path.join(fdir, "cache"), "-test.parallel", str(NCPU)],
+                     cwd=fdir, env=dict(GOENV, VERIF_FUZZ_CFG=fcfg), timeout=secs * 10 + 600)
+    m = re.findall(r"execs: (\d+)", fo)
+    mi = re.findall(r"total: (\d+)\)", fo)
+    rep.cov["native_fuzzing"] = {"seconds": secs, "executions": int(m[-1]) if m else 0, "interesting_inputs": int(mi[-1]) if mi else 0, "coverage_guided": "not built with coverage" not in fo}
+    fuzz_outcome = "result" if rc == 0 and "PASS" in fo else "panic"
+    fz_ev = {"e": "cycle", "run": "native-fuzz", "k": 0, "comp": "endpoint/native-fuzz", "wit": "held", "cp": "valid", "data": "random", "outcome": fuzz_outcome,
+             "sig": "-" if fuzz_outcome == "result" else "endpoint/native-fuzz/crash", "detail": fo[-1500:] if fuzz_outcome != "result" else ""}
+    if not m:
+        raise Inconclusive("native fuzzing did not run:\n" + fo[-1500:])
     tp = work.path("cycles.ndjson")
-    open(tp, "w").write(open(ht).read() + open(pt).read())
+    open(tp, "w").write(open(ht).read() + open(pt).read() + json.dumps(fz_ev) + "\n")
     events = read_ndjson(tp)
     fails = []
     lines = open(tp).read().splitlines(True)
